@@ -169,7 +169,7 @@ impl_parse! {
         "tag" => out.tag = Some(parse_assign_str(input)?),
         "export" => out.export = true,
         "export_to" => out.export_to = Some(parse_assign_expr(input)?),
-        "concrete" => out.concrete = parse_concrete(input)?,
+        "concrete" => out.concrete.extend(parse_concrete(input)?),
         "bound" => out.bound = Some(parse_bound(input)?),
         "optional_fields" => out.optional_fields = parse_optional(input)?,
     }
